@@ -470,7 +470,7 @@ class BaseCooccurrenceVectorizer(BaseEstimator, TransformerMixin):
             coo_sizes = (self.coo_initial_bytes // 20) // np.sum(average_window)
             self._coo_sizes = np.array(coo_sizes * average_window, dtype=np.int64)
 
-        self._coo_sizes = np.divmod(self._coo_sizes, self.n_threads)[0]
+        self._coo_sizes = np.maximum(np.divmod(self._coo_sizes, self.n_threads)[0], 32)
 
     def _generate_chunk_boundaries(self, data, n_threads):
         token_list_sizes = np.array([len(x) for x in data])
